@@ -1,5 +1,5 @@
 (* FmtPS/Run.v — evaluation of the models and the specification functions on harness cases. *)
-From Relic Require Import Base.Prelude Base.Enc Base.Val Generated.FmtPS_gen FmtPS.Model.
+From Relic Require Import Base.Prelude Base.Enc Base.Val Generated.FmtPS_gen FmtPS.Model FmtPS.ModelText.
 
 Definition st_of {A} (r : result A) : Z := match r with Ok _ => 0 | Err e => e | Panic e => 100 + e end.
 Definition vres_bytes (r : result bytes) : val := VL [VZ (st_of r); VB (match r with Ok b => b | _ => [] end)].
@@ -45,10 +45,13 @@ Definition run_ps_verify (v : val) : val :=
   let f := vb (vnth 2 v) in
   VL [ vres_opt (ps_extract style f); vdig (ps_digest style f); vres_bytes (ps_payload style f) ].
 
-(* [5 cps] -> [utf8_enc cps ; utf16le_enc cps ; to_utf16 (utf8_enc cps)] : the text specification against Go's conversion *)
+(* [5 cps] -> [utf8_enc cps ; utf16le_enc cps ; to_utf16 (utf8_enc cps) ; writeUtf16 false (generated encoder) ; toUtf16
+   (generated) ; Unicode-standard UTF-16-LE ; writeUtf16 true] : the text specification against Go's conversion *)
 Definition run_text (v : val) : val :=
   let cps := map vz (vl (vnth 1 v)) in
-  VL [ VB (utf8_enc cps); VB (utf16le_enc cps); VB (to_utf16 (utf8_enc cps)) ].
+  VL [ VB (utf8_enc cps); VB (utf16le_enc cps); VB (to_utf16 (utf8_enc cps));
+       VB (ps_write_utf16 false (utf8_enc cps)); VB (ps_to_utf16 (utf8_enc cps)); VB (uni_utf16le cps);
+       VB (ps_write_utf16 true (utf8_enc cps)) ].
 
 (* [stored name, size, data, offset, normalised name (Sign), name written into the Files: line (Sign)] *)
 Definition vmember (m : member) : val :=
